@@ -9,6 +9,7 @@ import (
 	"math/big"
 	"os"
 	"strconv"
+	"time"
 )
 
 var model map[string]string
@@ -100,6 +101,26 @@ func Assert(c bool, msg string) {
 }
 
 func Note(key string, v any) {}
+
+// StepBudget(n, msg): under the symbolic interpreter the code that follows may execute at most n more SSA instructions
+// on this path, otherwise the path is reported as violating msg (a termination bound); StepBudget(0, "") lifts it.
+// Natively the bound is a wall-clock watchdog of 20 seconds.
+var budgetGen int
+
+func StepBudget(n int, msg string) {
+	budgetGen++
+	if n <= 0 {
+		return
+	}
+	g := budgetGen
+	go func() {
+		time.Sleep(20 * time.Second)
+		if budgetGen == g {
+			fmt.Printf("VERIF-REPLAY: assertion failed: %s\n", msg)
+			os.Exit(1)
+		}
+	}()
+}
 
 // Symbolic reports whether the harness runs under the symbolic interpreter.
 func Symbolic() bool { return false }
